@@ -208,6 +208,19 @@ def check_additive(c):
                 ok = ref.wellformed(Y, shape) is None
                 res.check(ok and np.abs(ref.dense(Y) - E).max() <= 1e-11 * (1 + np.abs(E).max()), 'additive', case,
                           lambda: 'additive function not reproduced: max dev %.3e' % (np.abs(ref.dense(Y) - E).max() if ok else -1), ['additive'])
+    # extreme magnitudes and very many (repeated) samples: the model and its tensor scale / stay the same
+    for sc, reps in ((1e-20, 1), (1e+20, 1), (1.0, 20001 // len(grid) + 1)):
+        res.ev()
+        Ig = np.tile(grid, (reps, 1))
+        yg = np.tile(y, reps) * sc
+        case = dict(c, scale=sc, rows=len(Ig))
+        with warnings.catch_warnings():
+            warnings.simplefilter('ignore')
+            Y = teneva.anova(Ig, yg, 2, 1, 0., seed=0)
+        ok = ref.wellformed(Y, shape) is None
+        res.check(ok and np.abs(ref.dense(Y) / sc - E).max() <= 1e-10 * (1 + np.abs(E).max()), 'additive.scaled', case,
+                  lambda: 'values scaled by %g / %d rows: additive function not reproduced (dev %.3e)' % (sc, len(Ig), np.abs(ref.dense(Y) / sc - E).max() if ok else -1),
+                  ['additive'])
     res.nt(tuple(shape))
     return res
 
